@@ -131,8 +131,27 @@ func normStr(info *types.Info, e ast.Expr) string {
 		return normStr(info, x.X) + " " + x.Op.String() + " " + normStr(info, x.Y)
 	case *ast.StarExpr:
 		return "*" + normStr(info, x.X)
+	case *ast.Ident:
+		if to, ok := normAlias[x.Name]; ok {
+			return to
+		}
 	}
 	return exprStr(e)
+}
+
+// normAlias: while a rule looks at one function, locals that are just another name for a parameter
+// (`bBig := (*big.Int)(b)`) read as that parameter.
+var normAlias map[string]string
+
+// aliasesOf: the locals of body defined once from an expression that is `name` with conversions stripped.
+func aliasesOf(info *types.Info, body *ast.BlockStmt, name string) map[string]string {
+	out := map[string]string{}
+	for local, origin := range localOrigins(info, body) {
+		if local != name && origin != nil && normStr(info, origin) == name {
+			out[local] = name
+		}
+	}
+	return out
 }
 
 // localOrigins maps a local variable to the expression it was (once) defined from, conversions stripped.
@@ -361,6 +380,30 @@ func guarded(info *types.Info, body *ast.BlockStmt, op ast.Node, names []string,
 							return true
 						}
 						switch y := n.(type) {
+						case *ast.SwitchStmt:
+							// a tagless switch tries its cases in order: in a later arm every earlier case was false
+							if y.Tag == nil && contains(y.Body) {
+								badSeen := false
+								for _, cl := range y.Body.List {
+									cc := cl.(*ast.CaseClause)
+									if contains(cc) {
+										inBody := false
+										for _, bs := range cc.Body {
+											if bs.Pos() <= op.Pos() && op.End() <= bs.End() {
+												inBody = true
+											}
+										}
+										if badSeen && (inBody || cc.List == nil) {
+											ok = true
+										}
+										break
+									}
+									if len(cc.List) == 1 && condEstablishes(info, cc.List[0], names, k) == +1 && !isConjunction(cc.List[0]) {
+										badSeen = true
+									}
+								}
+							}
+							return true
 						case *ast.BlockStmt:
 							if contains(y) {
 								walk(y.List)
@@ -407,6 +450,66 @@ func guarded(info *types.Info, body *ast.BlockStmt, op ast.Node, names []string,
 	}
 	walk(body.List)
 	return ok
+}
+
+// guardedAtCallers: the operand is an (unassigned… or only sign-normalised) parameter of an unexported function,
+// and at every call of that function in the package the argument passed for it is a variable guarded, at the call,
+// by a test of the required kind. Returns the callers' names, or "" when this does not hold.
+func guardedAtCallers(c *Ctx, p *packages.Package, fd *ast.FuncDecl, names []string, k guardKind) string {
+	if fd.Name.IsExported() || fd.Type.Params == nil || len(names) == 0 {
+		return ""
+	}
+	self, _ := p.TypesInfo.Defs[fd.Name].(*types.Func)
+	if self == nil {
+		return ""
+	}
+	idx := -1
+	i := 0
+	for _, f := range fd.Type.Params.List {
+		for _, nm := range f.Names {
+			if nm.Name == names[0] {
+				idx = i
+			}
+			i++
+		}
+	}
+	if idx < 0 {
+		return ""
+	}
+	info := p.TypesInfo
+	var from []string
+	sites := 0
+	okAll := true
+	for _, file := range c.Files(p) {
+		for _, d := range file.Decls {
+			od, ok := d.(*ast.FuncDecl)
+			if !ok || od.Body == nil {
+				continue
+			}
+			ast.Inspect(od.Body, func(n ast.Node) bool {
+				call, ok := n.(*ast.CallExpr)
+				if !ok || Callee(info, call) != self {
+					return true
+				}
+				sites++
+				if idx >= len(call.Args) {
+					okAll = false
+					return true
+				}
+				aid := identOf(stripConv(info, call.Args[idx]))
+				if aid == nil || !guarded(info, od.Body, call, []string{aid.Name}, k) {
+					okAll = false
+					return true
+				}
+				from = append(from, declID(p, od))
+				return true
+			})
+		}
+	}
+	if sites == 0 || !okAll {
+		return ""
+	}
+	return strings.Join(uniq(from), ", ")
 }
 
 func isConjunction(e ast.Expr) bool {
@@ -500,6 +603,8 @@ func runGuardedOps(c *Ctx, r *Rep, prop string, files map[string]bool, pkgs []st
 					}
 					if guarded(info, fd.Body, op, names, k) {
 						r.ok("guard|"+key, op.Pos(), "guarded by a test of %s", names[0])
+					} else if from := guardedAtCallers(c, p, fd, names, k); from != "" {
+						r.ok("guard|"+key, op.Pos(), "%s is a parameter of this helper; every call in the package passes an operand guarded there (%s)", names[0], from)
 					} else {
 						r.bad("guard|"+key, op.Pos(), "%s", why)
 					}
@@ -647,19 +752,32 @@ func runC07R3(c *Ctx, r *Rep) {
 					n++
 					// which branch is the overflow branch?
 					overflowBranch := false
-					ast.Inspect(is.Body, func(m ast.Node) bool {
-						switch y := m.(type) {
-						case *ast.BranchStmt:
-							if y.Tok == token.GOTO {
-								overflowBranch = true
+					var usesBig func(n ast.Node, depth int) bool
+					usesBig = func(n ast.Node, depth int) bool {
+						hit := false
+						ast.Inspect(n, func(m ast.Node) bool {
+							switch y := m.(type) {
+							case *ast.BranchStmt:
+								if y.Tok == token.GOTO {
+									hit = true
+								}
+							case *ast.SelectorExpr:
+								if strings.HasPrefix(exprStr(y), "big.") {
+									hit = true
+								}
+							case *ast.CallExpr:
+								// the promotion written as a helper of the package
+								if cal := Callee(p.TypesInfo, y); cal != nil && cal.Pkg() == p.Types && depth > 0 {
+									if hd := c.Decl(cal); hd != nil && hd.Body != nil && usesBig(hd.Body, depth-1) {
+										hit = true
+									}
+								}
 							}
-						case *ast.SelectorExpr:
-							if strings.HasPrefix(exprStr(y), "big.") {
-								overflowBranch = true
-							}
-						}
-						return true
-					})
+							return !hit
+						})
+						return hit
+					}
+					overflowBranch = usesBig(is.Body, 2)
 					wantOps := map[string][]token.Token{"IntMax": {token.GTR, token.GEQ}, "IntMin": {token.LSS, token.LEQ}}[limit]
 					if !overflowBranch {
 						wantOps = map[string][]token.Token{"IntMax": {token.LSS, token.LEQ}, "IntMin": {token.GTR, token.GEQ}}[limit]
